@@ -329,6 +329,31 @@ func (expr Expression) variablesUsed(acc map[string]struct{}) {
 	case ExpressionTypeTypeCast:
 		expr.TypeCast.Expression.variablesUsed(acc)
 		return
+	case ExpressionTypeCoalesce:
+		for _, arg := range expr.Coalesce.Arguments {
+			arg.variablesUsed(acc)
+		}
+		return
+	case ExpressionTypeTuple:
+		for _, arg := range expr.Tuple.Arguments {
+			arg.variablesUsed(acc)
+		}
+		return
+	case ExpressionTypeObjectFieldAccess:
+		expr.ObjectFieldAccess.Object.variablesUsed(acc)
+		return
+	case ExpressionTypeQueryExpression:
+		// All variables mentioned anywhere in the subquery, which includes those it takes from the enclosing record.
+		t := Transformers{
+			ExpressionTransformer: func(subExpr Expression) Expression {
+				if subExpr.ExpressionType == ExpressionTypeVariable {
+					acc[subExpr.Variable.Name] = struct{}{}
+				}
+				return subExpr
+			},
+		}
+		t.TransformNode(expr.QueryExpression.Source)
+		return
 	}
 
 	panic("unexhaustive expression type match")
